@@ -120,9 +120,9 @@ func runC18(c *Ctx, r *Rec) {
 	r.count("slice/map parameters", nD1)
 	r.count("container results", nD2)
 	r.count("bulk operands", nD3)
-	r.floor("D1-argument-not-retained", 9)
-	r.floor("D2-result-fresh", 40)
-	r.floor("D3-operand-snapshot", 12)
+	r.floor("D1-argument-not-retained", 6)
+	r.floor("D2-result-fresh", 30)
+	r.floor("D3-operand-snapshot", 8)
 }
 
 func isClassType(c *Ctx, n *types.Named) bool {
